@@ -428,6 +428,11 @@ pub fn new_uid() -> Uid {
 
     one.copy_from_slice(time);
     OsRng.fill_bytes(two);
+    #[cfg(feature = "verif")]
+    if let Some(tail) = crate::verif_hooks::next_uid_tail() {
+        let n = two.len();
+        two.copy_from_slice(&tail[0..n]);
+    }
 
     uid
 }
